@@ -10,7 +10,8 @@ import itertools
 from vlib import harness as H
 
 RULE = ('all operation sequences up to a depth bound over string-backed and token-backed '
-        'buffers (exhaustive), plus random histories of up to 40 operations; an operation whose '
+        'buffers (exhaustive), plus random histories of up to 40 operations, plus histories over buffers of up to '
+        '~4000 items whose single moves / look-aheads / slices / scans span 33..1025 items; an operation whose '
         'precondition (in-range move, non-negative look-behind) fails in the model is pruned. '
         'Non-trivial = the sequence moves backward after the queue grew, scans after a look-ahead, '
         'or executes an operation at exhaustion; distinct by (backing, source, operation list)')
@@ -64,6 +65,20 @@ def op_templates(deep=False):
 
 
 OPS = op_templates()
+BIG = (33, 64, 65, 100, 127, 128, 129, 130, 150, 200, 255, 256, 257, 258, 300, 511, 512, 513, 600, 1000, 1024, 1025)
+
+
+def big_templates():
+    """Moves, look-aheads and slices far beyond what is already fetched (block / window / threshold sizes)."""
+    ops = []
+    for j in BIG:
+        ops += [('forward', j), ('backward', j), ('peek', j), ('peek', -j), ('peekr', 0, j), ('peekr', -j, 0),
+                ('peekr', -j, j), ('hasNext', j), ('slice', None, j), ('slice', j, None), ('slice', j // 2, j),
+                ('slice3', None, j, 2), ('slice3', 0, j, 7)]
+    return ops
+
+
+BIG_OPS = big_templates()
 
 
 _TOK_CACHE = {}
@@ -279,7 +294,8 @@ def plan(ctx):
     for i in range(nshard):
         shards.append(('bfs', depth, i, nshard, sources))
     rnd = [('rnd', ctx.pick(400, 6000), i) for i in range(16)]
-    return [('shard_bfs', shards), ('shard_random', rnd)]
+    big = [('big', ctx.pick(120, 3000), i) for i in range(16)]
+    return [('shard_bfs', shards), ('shard_random', rnd), ('shard_long', big)]
 
 
 def shard_bfs(ctx, shard):
@@ -350,6 +366,33 @@ def shard_random(ctx, shard):
         res.hist['rnd:executed-ops'] += ex
 
     H.hyp_search(strat, prop, nexamples, ctx.seed * 100 + idx, res, known=ctx.known)
+    return res
+
+
+def shard_long(ctx, shard):
+    """Buffers of hundreds to thousands of items; single moves, look-aheads, slices and scans that cross many items."""
+    _, nexamples, idx = shard
+    H.import_repo()
+    from hypothesis import strategies as st
+    res = H.Result()
+    unit = st.sampled_from(['a', 'c', 'b', '{', '}', ' ', '$', '\\x', '[', 'a{', '\n'])
+    run = st.tuples(unit, st.sampled_from([1, 2, 5, 31, 32, 33, 64, 100, 127, 128, 129, 200, 256, 257, 300, 513, 700]))
+    source = st.lists(run, min_size=1, max_size=6).map(lambda rs: ''.join(u * k for u, k in rs))
+    ops = st.lists(st.one_of(st.sampled_from(BIG_OPS), st.sampled_from(BIG_OPS), st.sampled_from(OPS)), min_size=2, max_size=20)
+    strat = st.tuples(st.sampled_from(['str', 'tok']), source, ops)
+
+    def prop(v):
+        backing, source, ops = v
+        flags = set()
+        ex = run_sequence(backing, source, ops, flags, genuine=True)
+        big = sum(1 for o in ops if o in BIG_OPS)
+        res.case((backing, source, tuple(ops)), ex >= 2 and big >= 1,
+                 sample={'backing': backing, 'source_length': len(source), 'ops': [list(o) for o in ops]},
+                 classes=['long:%s' % backing, 'long:source>=%d' % (len(source) // 500 * 500)] + ['flag:' + f for f in flags])
+        res.hist['long:executed-ops'] += ex
+
+    H.hyp_search(strat, prop, nexamples, ctx.seed * 100 + idx, res, known=ctx.known,
+                 keyfn=lambda v: repr(v), shrink_budget=300)
     return res
 
 
